@@ -119,15 +119,21 @@ func verifHistory(steps int, twin bool) {
 	}
 	gp, gs := map[string]vPri{}, map[string]vSec{}
 	apps := []string{"x", "y"}
+	// quick: one primary key, the first change creates it; thorough: two primary keys, any first change
+	nPri := 1 + vp.Tier()
 	for t := 0; t < steps; t++ {
 		p := vp.Name("op", t)
-		switch vp.Choice(p+".kind", 4) {
+		kind := 0
+		if t > 0 || vp.Tier() > 0 {
+			kind = vp.Choice(p+".kind", 4)
+		}
+		switch kind {
 		case 0:
-			o := vPri{Name: []string{"a", "b"}[vp.Choice(p+".name", 2)], Sel: apps[vp.Choice(p+".sel", 2)], Val: verifSmall(p + ".val")}
+			o := vPri{Name: []string{"a", "b"}[vp.Choice(p+".name", nPri)], Sel: apps[vp.Choice(p+".sel", 2)], Val: verifSmall(p + ".val")}
 			pri.UpdateObject(o)
 			gp[o.Name] = o
 		case 1:
-			n := []string{"a", "b"}[vp.Choice(p+".name", 2)]
+			n := []string{"a", "b"}[vp.Choice(p+".name", nPri)]
 			pri.DeleteObject(n)
 			delete(gp, n)
 		case 2:
@@ -139,8 +145,10 @@ func verifHistory(steps int, twin bool) {
 			sec.DeleteObject(n)
 			delete(gs, n)
 		}
-		if vp.Choice(p+".settle", 2) == 1 {
-			vp.Quiesce() // otherwise the next change arrives while this one is still being processed
+		// quick: every change is processed to quiescence before the next one arrives (the regime in which a missed
+		// recomputation cannot be repaired by a later event); thorough: also changes arriving back to back
+		if vp.Tier() == 0 || vp.Choice(p+".settle", 2) == 1 {
+			vp.Quiesce()
 		}
 	}
 	if late {
@@ -191,7 +199,7 @@ func verifHistory(steps int, twin bool) {
 	close(stop)
 }
 
-func VerifC16DerivedCollection() { verifHistory(3+vp.Tier(), false) }
+func VerifC16DerivedCollection() { verifHistory(3, false) }
 
 // Mutant twin: "the derived collection stays empty" must be refuted.
 func VerifC16Twin() { verifHistory(1, true) }
